@@ -96,7 +96,7 @@ impl TypeCollector {
     }
 
     /// Recursively discover nested dependencies
-    fn discover_nested_dependencies(
+    pub(crate) fn discover_nested_dependencies(
         &self,
         initial_types: &std::collections::HashSet<String>,
         all_structs: &HashMap<String, StructInfo>,
